@@ -7,6 +7,8 @@ mod util;
 mod world;
 mod bytesapi;
 mod oneshotip;
+#[cfg(not(feature = "force-inprocess"))]
+mod eofrace;
 mod timed;
 mod chain;
 #[cfg(feature = "async")]
@@ -42,6 +44,8 @@ fn main() {
         "world" => world::run(&args[2..]),
         "bytesapi" => bytesapi::run(&args[2..]),
         "oneshotip" => oneshotip::run(&args[2..]),
+        #[cfg(not(feature = "force-inprocess"))]
+        "eofrace" => eofrace::run(&args[2..]),
         "timed" => timed::run(&args[2..]),
         "chain" => chain::run(&args[2..]),
         #[cfg(not(feature = "force-inprocess"))]
